@@ -236,6 +236,8 @@ def owners(div):
         return {"C14", "C05"}
     if kind in ("infra", "badscript", "badenv", "garbled"):
         return {"INFRA"}
+    if kind == "contract":
+        return {w.split(":")[0] for w in div.get("why", [])}
     if kind == "envfail":
         # the environment could not do what the model says it can (e.g. the child has no such descriptor)
         return {"C10", "C02"}
@@ -337,6 +339,9 @@ def signature(prop, div):
     args = {k: v for k, v in call.items() if k not in ("e", "fn", "h")}
     obs = div.get("obs") if isinstance(div.get("obs"), dict) else {}
     keys = div.get("keys") or [div.get("key")]
+    if div.get("kind") == "contract":
+        return "%s start kind=contract why=%s scenario=%s faults(side,call,errno)=%s r=%s" % (
+            prop, ",".join(w for w in div.get("why", []) if w.startswith(prop)), call.get("scenario"), json.dumps(call.get("faults")), obs.get("r"))
     if div.get("kind") in ("hang", "early"):
         exp = "(returns)" if div.get("kind") == "hang" else "(still blocked)"
         ob = obs.get("blocked_in", obs.get("r"))
@@ -426,9 +431,157 @@ def fam_drain(tier, outdir):
 
 def fam_launch(which, tier, outdir):
     consts = {"Family": '"%s"' % which, "StdMode": '"all"' if which == "wiring" else '"open"'}
+    stride = 1
     cfg = os.path.join(outdir, "MC_Launch_%s.cfg" % which)
     write_cfg(cfg, "Spec", consts, ["VerdictSane"], view=None, action_constraint=None)
     return run_tlc_export(which, "MC_Launch", cfg, outdir, tier, asan_stride=2, tlc_workers=8)
+
+
+FAULT_ERRNOS = {1: [24], 2: [4], 3: [4], 4: [4], 5: [4], 6: [22], 7: [24, 13, 4], 8: [4, 24], 9: [11, 12], 10: [4], 11: [1],
+                12: [8, 12], 13: [13], 14: [2], 15: [22], 16: [14], 17: [22], 18: [22], 19: [22], 20: [12]}
+FK_SIGACTION, FK_SIGMASK, FK_SIGSET = 16, 17, 18
+
+
+def run_scripts_traced(scripts, outdir, tag, flavor="plain"):
+    """Run scripts (python lists) through a driver pool in trace mode; returns the verdicts in input order."""
+    exe = vlib.build_driver(flavor)
+    n = max(2, min(NCPU - 2, len(scripts) // 50 + 1))
+    pool = Pool(exe, n, outdir, tag, env=vlib.ASAN_ENV, args=["--trace"])
+    for s in scripts:
+        pool.send((json.dumps(s, separators=(",", ":")) + "\n").encode())
+    pool.finish()
+    out = [None] * len(scripts)
+    for k, fn in enumerate(pool.files):
+        with open(fn) as fh:
+            for line in fh:
+                v = json.loads(line)
+                out[(v["i"] - 1) * n + k] = v
+    return out
+
+
+def fault_record(idx, scen, faults, fpoints, v):
+    """Project one traced execution [new, start(faults), pid, start, destroy] to the record FaultTrace.tla judges."""
+    exp = scen[4]
+    tr = [t for t in v.get("trace", []) if t.get("e") == "obs"]
+    if len(tr) < 5:
+        return None
+    o_new, o_s1, o_pid, o_s2, o_d = [t["o"] for t in tr[:5]]
+    base_fd, base_alloc = o_new["nfd"], o_new["nalloc"]
+    wired = 1
+    cclean = 1
+    if o_s1["r"] > 0:
+        for kx in ("cw", "cx", "pp", "cnb"):
+            if kx in exp and o_s1.get(kx) != exp[kx]:
+                wired = 0
+        if o_s1.get("cmask") != [] or o_s1.get("cdisp") != []:
+            cclean = 0
+    mon = []
+    for t in tr[:5]:
+        mon += t["o"].get("mon", [])
+    fpoints = o_s1.get("fpoints") or fpoints   # the calls this (faulted) run really made: a fault shifts the later indices
+    sigmask_parent = [p for p in fpoints if p[0] == 0 and p[2] == FK_SIGMASK]
+    restorer = any(len(sigmask_parent) >= 2 and fl[0] == 0 and fl[1] == sigmask_parent[1][1] for fl in faults)
+    kinds = {(p[0], p[1]): p[2] for p in fpoints}
+    childsig = any(fl[0] == 1 and kinds.get((1, fl[1])) in (FK_SIGACTION, FK_SIGMASK, FK_SIGSET) for fl in faults)
+    return {
+        "id": idx, "faults": [[fl[0], fl[1], fl[2]] for fl in faults], "r": o_s1["r"], "forks": o_s1.get("forks", 0), "left": o_s1.get("left", 0),
+        "pidr": o_pid["r"], "cexec": o_s1.get("cexec", 0) if o_s1["r"] > 0 else 0, "wired": wired,
+        "dnfd": o_s1["nfd"] - base_fd, "dnalloc": o_s1["nalloc"] - base_alloc,
+        "maskok": 1 if o_s1.get("pmask") == exp.get("pmask", []) else 0, "dispok": 1 if o_s1.get("pdisp") == exp.get("pdisp", []) else 0,
+        "cwdok": 1 if o_s1.get("pcwd") == exp.get("pcwd", "/w") else 0, "cclean": cclean,
+        "r2": o_s2["r"], "dnfd2": o_d["nfd"] - base_fd, "dnalloc2": o_d["nalloc"],
+        "left2": o_s2.get("left", 0) + sum(1 for st in o_d.get("st", []) if st[1] != 2),
+        "mon": [[m_[0], m_[1]] for m_ in mon], "restorer": restorer, "childsig": childsig,
+        # the child's error report (its write to the error pipe) was itself the injected fault: nothing can report that
+        "reportfault": any(fl[0] == 1 and kinds.get((1, fl[1])) == 4 for fl in faults),
+    }
+
+
+def fam_faults(tier, outdir):
+    """Fault sweep: every libc call a start makes fails once (and in sampled pairs), on both sides of fork."""
+    import random
+    t0 = time.time()
+    # 1. scenarios from TLC (with the wiring each must produce)
+    cfg = os.path.join(outdir, "MC_Launch_faultscen.cfg")
+    write_cfg(cfg, "Spec", {"Family": '"faultscen"', "StdMode": '"open"'}, ["VerdictSane"], view=None, action_constraint=None)
+    meta = os.path.join(outdir, "tlc_meta")
+    r = subprocess.run(["java", "-cp", vlib.TLA_CP, "tlc2.TLC", "-workers", "4", "-metadir", meta, "-config", cfg, os.path.join(SPEC, "MC_Launch.tla")],
+                       capture_output=True, cwd=SPEC)
+    shutil.rmtree(meta, ignore_errors=True)
+    scen = [unescape_beh(l + b"\n") for l in r.stdout.splitlines() if l.startswith(b'<<"BEH"')]
+    st = parse_tlc_stats(r.stdout.decode("utf8", "replace"))
+    if not scen or st["states"] == 0:
+        raise Infra("no fault scenarios from TLC:\n" + r.stdout.decode()[-1500:])
+    KILLNOW = [[3, -1], [0, 0], [0, 0]]
+    for s in scen:
+        s[3]["o"]["stop"] = KILLNOW
+    # 2. count the fault points of every scenario
+    base = run_scripts_traced([[s[0], s[1], s[3]] for s in scen], outdir, "count")
+    scripts, meta_l = [], []
+    rng = random.Random(SEED)
+    for si, (s, b) in enumerate(zip(scen, base)):
+        obs = [t for t in b.get("trace", []) if t.get("e") == "obs"]
+        if b.get("ok") != 1 or len(obs) < 2 or obs[1]["o"]["r"] != 1:
+            raise Infra("fault scenario %d does not start cleanly: %s" % (si, json.dumps(b)[:800]))
+        fp = obs[1]["o"]["fpoints"]
+        plans = [[[p[0], p[1], e]] for p in fp for e in FAULT_ERRNOS.get(p[2], [5])]
+        npairs = (40 if tier == "quick" else 1500)
+        for _ in range(npairs):
+            a, bb = rng.choice(fp), rng.choice(fp)
+            if (a[0], a[1]) != (bb[0], bb[1]):
+                plans.append([[a[0], a[1], rng.choice(FAULT_ERRNOS.get(a[2], [5]))], [bb[0], bb[1], rng.choice(FAULT_ERRNOS.get(bb[2], [5]))]])
+        for pl in plans:
+            st1 = dict(s[3]); st1["faults"] = pl
+            scripts.append([s[0], s[1], st1, {"e": "call", "fn": "pid", "h": 1}, s[3], {"e": "call", "fn": "destroy", "h": 1}])
+            meta_l.append((si, pl, fp))
+    verd = run_scripts_traced(scripts, outdir, "faults")
+    averd = run_scripts_traced(scripts[::4 if tier == "quick" else 1], outdir, "faults_asan", flavor="asan")
+    # 3. records -> TLC
+    recs, bad = [], []
+    for i, (v, (si, pl, fp)) in enumerate(zip(verd, meta_l)):
+        if v is None or v.get("ok") != 1:
+            d = dict(v or {"kind": "lost"}); d["fn"] = "start"; d["script"] = scripts[i]; d.setdefault("kind", "crash")
+            d["call"] = {"fn": "start", "scenario": si, "faults": pl}
+            bad.append(d)
+            continue
+        rec = fault_record(i, scen[si], pl, fp, v)
+        if rec is None:
+            bad.append({"ok": 0, "kind": "infra", "raw": "short trace", "script": scripts[i]})
+            continue
+        recs.append(rec)
+    for i, v in enumerate(averd):
+        if v is None or v.get("ok") != 1:
+            d = dict(v or {"kind": "lost"}); d["fn"] = "start"; d["flavor"] = "asan"; d["script"] = scripts[::4 if tier == "quick" else 1][i]; d.setdefault("kind", "crash")
+            bad.append(d)
+    tracefile = os.path.join(outdir, "faults.ndjson")
+    with open(tracefile, "w") as fh:
+        for rec in recs:
+            fh.write(json.dumps(rec) + "\n")
+    env = dict(os.environ); env["TRACE"] = tracefile
+    meta = os.path.join(outdir, "tlc_meta_trace")
+    r = subprocess.run(["java", "-Xss16m", "-cp", vlib.TLA_CP, "tlc2.TLC", "-workers", "1", "-metadir", meta, "-config", os.path.join(SPEC, "FaultTrace.cfg"),
+                        os.path.join(SPEC, "FaultTrace.tla")], capture_output=True, text=True, cwd=SPEC, env=env)
+    shutil.rmtree(meta, ignore_errors=True)
+    open(os.path.join(outdir, "faulttrace.log"), "w").write(r.stdout)
+    st2 = parse_tlc_stats(r.stdout)
+    if "No error has been found" not in r.stdout:
+        raise Infra("FaultTrace validation did not complete:\n" + r.stdout[-2000:])
+    vl = [l for l in r.stdout.splitlines() if l.startswith('<<"VERDICT"')]
+    if not vl:
+        raise Infra("FaultTrace printed no verdict")
+    rejected = unescape_beh((vl[0].replace('<<"VERDICT", "', '<<"BEH", "') + "\n").encode())
+    byid = {rec["id"]: rec for rec in recs}
+    for rj in rejected:
+        rec = byid[rj["id"]]
+        si, pl, fp = meta_l[rj["id"]]
+        kinds = {(p[0], p[1]): p[2] for p in fp}
+        bad.append({"ok": 0, "kind": "contract", "fn": "start", "why": sorted(rj["why"]),
+                    "call": {"fn": "start", "scenario": si, "faults": [[fl[0], kinds.get((fl[0], fl[1])), fl[2]] for fl in pl]},
+                    "obs": rec, "script": scripts[rj["id"]]})
+    return {"family": "faults", "tlc": {"states": st["states"] + st2["states"], "transitions": st["transitions"] + st2["transitions"], "depth": st2["depth"]},
+            "scripts": len(scripts), "replayed": len(verd) + len(averd), "ok": len(recs) - len(rejected), "bad": bad,
+            "samples": [{"scenario": scen[0][3], "fault_plan": meta_l[0][1], "record": recs[0] if recs else None}], "wall_tlc": time.time() - t0,
+            "asan_replayed": len(averd), "replay_stride": 1, "fault_points": sum(len(m_[2]) for m_ in meta_l[:1]), "records_validated_by_tlc": len(recs)}
 
 
 def fam_destroy(tier, outdir):
@@ -490,16 +643,20 @@ def run_tlc_plain(name, module, cfgpath, outdir, timeout=1500, workers=8):
     return st
 
 
-FAMILIES = {"wiring": lambda t, o: fam_launch("wiring", t, o), "options": lambda t, o: fam_launch("options", t, o),
+FAMILIES = {"faults": fam_faults, "env": lambda t, o: fam_launch("env", t, o), "wiring": lambda t, o: fam_launch("wiring", t, o), "options": lambda t, o: fam_launch("options", t, o),
             "destroy": fam_destroy, "status": fam_status, "run": fam_run, "stop": fam_stop, "life": fam_life, "poll": fam_poll, "stream": fam_stream, "drain": fam_drain}
 
 PROPS = {
     "C01": {"families": ["status", "stop"], "title": "exit status exact, stable, reaped once"},
-    "C06": {"families": ["stop"], "title": "only the own unreaped child is signalled or waited for"},
+    "C06": {"families": ["stop", "faults"], "title": "only the own unreaped child is signalled or waited for"},
     "C07": {"families": ["stop"], "title": "stop sequences"},
+    "C03": {"families": ["env"], "title": "launch fidelity: argv, environment, working directory, program resolution"},
+    "C12": {"families": ["env", "faults"], "title": "start leaves the caller untouched and gives the child a clean signal state"},
     "C10": {"families": ["wiring"], "title": "each standard stream is connected exactly where the options say"},
     "C11": {"families": ["wiring"], "title": "nothing else is inherited"},
     "C13": {"families": ["options"], "title": "options rejected up front, accepted as documented"},
+    "C04": {"families": ["faults"], "title": "start is all-or-nothing and reports the real cause"},
+    "C05": {"families": ["faults", "life"], "title": "no leak, no foreign or double close"},
     "C14": {"families": ["life"], "title": "life cycle; misuse errors, never UB"},
     "C02": {"families": ["stream"], "title": "stream fidelity"},
     "C15": {"families": ["destroy"], "title": "destroy applies the stop policy"},
@@ -578,9 +735,11 @@ def conclude(prop, tier, results, known, outdir, t0):
         with open(path, "w") as f:
             json.dump({"property": prop, "family": fam, "signature": sig, "count": len(items), "divergence": d,
                        "script": d.get("script")}, f)
-        if n < 40:
+        if n < 25:
             # report only what an immediate re-run repeats (guards against the environment, DESIGN 5.8)
-            if d.get("script") is not None and replay(path, quiet=True) == 0:
+            if d.get("script") is not None and d.get("kind") != "contract" and replay(path, quiet=True) == 0:
+                continue
+            if d.get("kind") == "contract" and n < 6 and not recheck_contract(d, os.path.join(OUT, prop, "recheck")):
                 continue
             confirmed += 1
             print("VIOLATION property=%s replay=%s" % (prop, path))
@@ -622,8 +781,28 @@ def conclude(prop, tier, results, known, outdir, t0):
     return 1 if confirmed else 0
 
 
+def recheck_contract(d, outdir):
+    """Re-run one faulted start and re-evaluate the contract on its record (deterministic; guards the environment)."""
+    shutil.rmtree(outdir, ignore_errors=True)
+    os.makedirs(outdir)
+    v = run_scripts_traced([d["script"]], outdir, "re")[0]
+    if v is None or v.get("ok") != 1:
+        return True
+    tr = [t for t in v.get("trace", []) if t.get("e") == "obs"]
+    old = d.get("obs", {})
+    for key, idx in (("r", 1), ("r2", 3)):
+        if len(tr) > idx and tr[idx]["o"]["r"] != old.get(key):
+            return False
+    return True
+
+
 def replay(path, quiet=False):
     d = json.load(open(path))
+    if d.get("divergence", {}).get("kind") == "contract":
+        ok = recheck_contract(d["divergence"], os.path.join(OUT, "_replay"))
+        if not quiet:
+            print(json.dumps({"kind": "contract", "why": d["divergence"].get("why"), "reproduced": ok}))
+        return 1 if ok else 0
     script = d.get("script")
     if script is None:
         print("replay file has no script")
